@@ -97,6 +97,30 @@ func scenarios(c *vlib.Ctx) []*slib.Scn {
 	for _, f := range []string{"1:start:err", "0:start:panic", "1:stop:err", "0:stop:panic"} {
 		add(modules.C01Params{N: 2, Deps: [][2]int{{1, 0}}, Mgmt: true, Rounds: []int{2, 0, 2}, Fault: f}, 1)
 	}
+	// a prep/start routine that fails with an error wrapping context.Canceled
+	for n := 2; n <= 3; n++ {
+		for _, g := range graphs(n) {
+			if len(g) == 0 {
+				continue
+			}
+			for m := 0; m < n; m++ {
+				for _, ph := range []string{"prep", "start"} {
+					add(modules.C01Params{N: n, Deps: g, Fault: fmt.Sprintf("%d:%s:cancelerr", m, ph), Pts: 0}, 1)
+				}
+			}
+		}
+	}
+	// two overlapping management passes
+	for _, g := range [][][2]int{nil, {{1, 0}}} {
+		for s1 := 0; s1 < 4; s1++ {
+			for s2 := 0; s2 < 4; s2++ {
+				if s1 != s2 {
+					add(modules.C01Params{N: 2, Deps: g, Mgmt: true, Rounds: []int{3, s1, s2}, Overlap: true}, vlib.Pick(c, 1, 2))
+					add(modules.C01Params{N: 2, Deps: g, Mgmt: true, Rounds: []int{0, s1, s2}, Overlap: true}, vlib.Pick(c, 1, 2))
+				}
+			}
+		}
+	}
 	// a module that is enabled later fails to prep/start during the management pass (Start itself succeeded without it)
 	for _, g := range [][][2]int{nil, {{1, 0}}} {
 		for _, f := range []string{"1:start:err", "1:start:panic", "1:prep:err", "1:prep:panic"} {
@@ -113,7 +137,7 @@ func scenarios(c *vlib.Ctx) []*slib.Scn {
 func main() {
 	vlib.Main("C01", "model_checking", func(c *vlib.Ctx) {
 		c.Rule("stateless exploration of all interleavings within a deviation bound of the real modules+log packages (source-instrumented); " +
-			"scenarios = all dependency graphs on <=3 modules x {no fault, one prep/start/stop callback returning an error or panicking, two faulty callbacks in different modules} and x module-management histories (every initial enabled set, one further round with every other set) ; history = Start [-> ManageModules rounds] -> Shutdown; " +
+			"scenarios = all dependency graphs on <=3 modules x {no fault, one prep/start/stop callback returning an error or panicking, two faulty callbacks in different modules, a failure whose error wraps context.Canceled} and x module-management histories (every initial enabled set, one further round with every other set) ; history = Start [-> ManageModules rounds] -> Shutdown; " +
 			"distinct_nontrivial = distinct observation traces (callback begin/end order) per scenario")
 		c.Assume("sequential consistency; data-race freedom outside the instrumented synchronisation operations; map iteration order over the module registry is fixed ascending (descending in thorough)")
 		slib.Run(c, scenarios(c), slib.Opts{})
